@@ -34,6 +34,6 @@ PROP = dict(
 
 CLAIM = dict(
     text="Lean theorems C05.* about the model of the repaired chunk decoder (fix-C05.patch): (chunking) for every image and target list the encoder emits ceil(len/170) numbered lines of at most 170 payload bytes whose payloads concatenate to the image, none for an empty image, and each line is read back by the decoder's matcher as that index/format/target/payload/header; (clean runs) for every non-empty image with uint32 metadata and every valid target list, the encoder's lines - in one batch call (from any state of the locals), line by line through the streaming reader (from any reader state), with the reader state serialised/restored between any two lines, or with unrelated non-graphics lines woven in anywhere - yield exactly one image equal to what was sent, returned at the last chunk line; (safety) for EVERY history of lines (no length bound; numbers of at most 9 digits) under the three feeding disciplines Spec.Gfx.safetyOn = none: every delivered image is legitimate where it was returned (chunks 0..N in order of one transfer started by its chunk 0, same target list and format, header metadata, no chunk 0 between, payloads valid base64), no transfer is delivered twice, and (for every history whatsoever) a delivered image object is never written again. base64 decode(encode b) = b is proved. The same Spec predicates (with the Spec's own independently written line grammar) are evaluated on the real library's deliveries; model = code is checked on generated and exhaustively enumerated histories.",
-    note=TB + "The safety theorems read a line through the decoder's own matcher (readLine); the Spec's independent line grammar is compared with it by the driver on every line of every record and with the real regexp on near-miss lines, but their equality is not yet a theorem (nor, therefore, the Spec.checkEnc/checkClean forms of the encoder/clean-run statements, which are proved in model terms). The pinned tree violates the property in four ways (index skipped over, image appended to after delivery, streaming duplicate delivery, damaged base64 payload completing a transfer): kept as decide-checked counterexample theorems and corpus replays. encoding/json, regexp and the non-graphics decoder are trusted / opaque; Go int taken as unbounded.",
+    note=TB + "spec_reading_agrees: the Spec's independent line grammar (Spec.Gfx.parseLine) equals the decoder's matcher (readLine) on EVERY byte string; encoder_lines_clean, clean_run_spec (ids < 2^32: the decoder stores ids as uint32, clean_run_spec_id_domain_counterexample), safety_spec_batch/stream are the Spec-level forms (Spec.Gfx.checkEnc/checkClean/checkSafety = none) of the encoder, clean-run and safety theorems, i.e. exactly what the driver evaluates on the implementation's output. clean_run_spec is stated for a single target id.",
     technique="Lean 4 proof (induction over the chunk index for clean runs; invariant over the history with ghost positions of accepted chunks and a reachability argument for the Spec's legitimacy search) + model/implementation correspondence incl. exhaustive short histories",
 )
